@@ -161,7 +161,7 @@ def run_algo(key, nthreads, res):
 
 
 def run_adversary(key, res, code=None):
-    """one caller with a symbolic account against an adversary: before every access of the caller to a shared
+    """one caller with a symbolic account against an adversary: before every read and right after every write of the caller to a shared
     location, *another real thread* overwrites that location with an arbitrary value in 0..10 (any remainder a
     concurrent call of the same method could leave there).  The caller's outcome must equal its solo outcome.
     With `code` the call is IBAN('DE' dd code account, validate_bban=True) through the public API."""
@@ -193,8 +193,8 @@ def run_adversary(key, res, code=None):
         writes = []
 
         def access(kind, obj, name):
-            if (id(obj), name) not in shared or threading.current_thread() is not main or kind == "w+":
-                return
+            if (id(obj), name) not in shared or threading.current_thread() is not main or kind == "w":
+                return  # the adversary strikes before every read and right after every write of the caller
             v = rt.fresh_int(f"adv{len(writes)}", 0, 10)
             writes.append((kind, name, v))
             t = threading.Thread(target=lambda: setattr(obj, name, rt.SymInt(v)))
